@@ -125,8 +125,8 @@ Definition class_name (c : cclass) : string :=
 
 Definition v_hasget (readable_kind : bool) (s : wstate) (b : bytes * bytes) : val :=
   let c := fst b in
-  let has := if readable_kind then bs_has s c else st_has s c in
-  let get := if readable_kind then bs_get s c else st_get s true c in
+  let has := fe_has s c in
+  let get := fe_get s c in
   VL [match has with OBool h => v_of_bool h | _ => VT "err" end;
       match get with OBytes d => VB d | _ => VT "err" end].
 
@@ -166,11 +166,6 @@ Definition run_crash (input : val) : val :=
       end
     end.
 
-(* identity blocks are not written unless StoreIdentityCIDs: Put returns nil, Has/Get answer from
-   the CID itself -- acknowledged, but not to be looked for in the file *)
-Definition skipped_identity (o : wopts) (b : bytes * bytes) : bool :=
-  negb (w_storeid o) && match cid_parse (fst b) with Some p => is_identity p | None => false end.
-
 (* C06 evaluated on what the implementation did with the crash image *)
 Definition prop_crash (input obs : val) : val :=
   if vtag (vnth 0 input) "writes" then VT "ok" else
@@ -190,7 +185,7 @@ Definition prop_crash (input obs : val) : val :=
     let out := vnth 1 obs in
     if vtag (vnth 0 out) "err" then
       (* refused: every acknowledged section must still be in the file *)
-      let sdone := run_puts start (firstn (done_puts start (cs_puts x) (k - loglen start)) (cs_puts x)) in
+      let sdone := run_puts start (firstn (cs_done x start k) (cs_puts x)) in
       let lim := data_base o + ws_pos sdone in
       let after := vB (vnth 1 out) in
       if bytes_eqb (drop (data_base o) (take lim after)) (drop (data_base o) (take lim img))
